@@ -654,6 +654,8 @@ class Run:
         alts = [x.strip() for x in t.split("|")]
         fs = []
         for x in alts:
+            if "[" in x:
+                x = x[: x.index("[")]
             if x == "any":
                 return None
             if x == "int":
